@@ -30,20 +30,21 @@ def sensitivity():
         res = [r for r in json.load(open(p))["results"] if os.path.exists(os.path.join(VERIF, "seeded", r["id"], "patch.diff"))]
         n = sum(1 for r in res if r.get("detected"))
         out.append(f"**Seeded changes by independent sub-agents** ({n}/{len(res)} make the property's quick check exit 1 with the machinery as committed):\n")
-        out.append("| seeded change | property | what it needs in order to manifest (author's note, abridged) | violation key reported by the check |")
-        out.append("|---|---|---|---|")
+        out.append("| seeded change | property | what it needs in order to manifest (author's note, abridged) | violation key reported by the check | failing runs / runs |")
+        out.append("|---|---|---|---|---|")
         for r in res:
             meta = json.load(open(os.path.join(VERIF, "seeded", r["id"], "meta.json")))
             needs = " ".join(meta.get("needs_to_manifest", "").split())[:260]
             main = r.get(r["pid"], {})
             key = (main.get("violations") or ["- NOT DETECTED -"])[0] if "error" not in r else "ERROR"
-            out.append(f"| {r['id']} | {r['pid']} | {needs} | `{key}` |")
+            margin = f"{main.get('violating_runs')} / {main.get('runs')}" if main.get("violating_runs") is not None else "-"
+            out.append(f"| {r['id']} | {r['pid']} | {needs} | `{key}` | {margin} |")
     p = os.path.join(VERIF, "mutants/results-benign.json")
     if os.path.exists(p):
         res = [r for r in json.load(open(p))["results"] if os.path.exists(os.path.join(VERIF, "benign", r["id"], "patch.diff"))]
         n = sum(1 for r in res if r.get("silent"))
         out.append("")
-        out.append(f"**Benign (behaviour-preserving) changes** ({n}/{len(res)} leave all ten quick checks silent, i.e. exit 0):\n")
+        out.append(f"**Benign (behaviour-preserving) changes** ({n}/{len(res)} leave every quick check silent, i.e. exit 0; the last re-run covered the checks whose worlds execute the files a change touches):\n")
         out.append("| change | what it does (author's note, abridged) | checks that raised an alarm |")
         out.append("|---|---|---|")
         for r in res:
